@@ -306,13 +306,12 @@ Section Calib.
   Definition create_checkpoint (s : cstate) : cstate * option exn :=
     match save (live s) with Some d => (mkSt (live s) (Some d), None) | None => (s, Some ExOther) end.
 
-  (* restore_from_checkpoint: constructor with the unpickled scheduler (table REBUILT from its samplers),
-     then counters, records and generator state overwritten *)
+  (* restore_from_checkpoint: constructor with the unpickled scheduler, then counters, records, generator state
+     and (after the repair c25ce62) the sampler id table are overwritten with the saved ones *)
   Definition restore (s : cstate) : cstate * option exn :=
     match disk s with
     | None => (s, Some ExOther)
-    | Some d => (mkSt (set_counts (set_tbl d (tconstruct (sched_samplers (sch d))))
-                                  (model_calls (live s)) (loss_calls (live s))) (disk s), None)   (* ghost counters run on *)
+    | Some d => (mkSt (set_counts d (model_calls (live s)) (loss_calls (live s))) (disk s), None)   (* ghost counters run on *)
     end.
 
   Definition set_samplers (l : list sampler) (s : cstate) : cstate * option exn :=
